@@ -77,5 +77,19 @@ CHECKS["C17"] = {
     "level_note": "Trusts synctest's fake clock and the harness world.",
 }
 
+CHECKS["C09"] = {
+    "level": "exploration",
+    "rule": "1-5 targets deployed healthy, then per-target generated probe scripts (refused, 302/404/500, answers around the probe "
+            "timeout and beyond the interval, stall, ok; flapping, all failing, staggered recovery), 2-12 request events at drawn "
+            "virtual instants between probes, each a run of sequential requests and optionally a concurrent batch of 2-12; oracle: "
+            "healthy set H recomputed from the targets' own probe logs at each (quiescent) instant, membership of every receipt in H, "
+            "503 when H is empty, floor/ceil fairness over every window of every stretch with H unchanged (batches atomic), probe "
+            "cadence and liveness. Non-trivial = H changed at least twice and a window of >=2k receipts was observed. Distinct by plan hash.",
+    "layers": [L("TestVF_C09", 1200, 15000)],
+    "technique": "property-based testing (rapid) on a virtual clock: generated probe scripts and request bursts; oracle recomputed from observed probe logs; window fairness invariant",
+    "level_text": "Bounded random exploration with exact virtual time; observation at quiescent instants only, ties skipped and counted.",
+    "level_note": "Trusts synctest's fake clock and the fake targets' logs.",
+}
+
 ALL_IDS = ["C%02d" % i for i in range(1, 21)]
 NOT_APPLICABLE = {pid: "check not built yet (work in progress; see DESIGN.md section 8 for the order of work)" for pid in ALL_IDS if pid not in CHECKS}
